@@ -310,6 +310,24 @@ theorem erased_decorated (c : Content κ) :
     ({ c with edges := c.edges.map (decorated c.weighted) } : Content κ).erased = c.erased := by
   simp [Content.erased, decorated, LawfulKind.erase_decorate, Function.comp_def]
 
+/-- the loaded content is again well-formed: `WF` speaks about keys, members and weights only, and
+    `decorated` keeps those -/
+theorem WF_decorated (c : Content κ) (h : WF c) :
+    WF ({ c with edges := c.edges.map (decorated c.weighted) } : Content κ) := by
+  obtain ⟨hn, he, hc, hm, hu⟩ := h
+  refine ⟨hn, ?_, ?_, ?_, ?_⟩
+  · simpa [keys_decorated] using he
+  · intro e hmem
+    obtain ⟨e0, h0, rfl⟩ := List.mem_map.mp hmem
+    exact hc e0 h0
+  · intro e hmem
+    obtain ⟨e0, h0, rfl⟩ := List.mem_map.mp hmem
+    exact hm e0 h0
+  · intro hw e hmem
+    obtain ⟨e0, h0, rfl⟩ := List.mem_map.mp hmem
+    exact hu hw e0 h0
+
 end rt
+
 
 end C06
